@@ -88,6 +88,7 @@ type nativeResult struct {
 	Distinct   int      `json:"distinct_traces"`
 	Skipped    int      `json:"assume_failed"`
 	Panic      string   `json:"panic"`
+	LastTrace  []string `json:"last_trace,omitempty"`
 }
 
 const verifDir = "/verif"
@@ -210,7 +211,7 @@ func cmdCheck(argv []string) int {
 			p = p[:i]
 		}
 		p = p[:strings.LastIndex(p, ".")]
-		return p[strings.LastIndex(p, "/")+1:]
+		return strings.TrimPrefix(p, "tkestack.io/kvass/pkg/")
 	}
 	entryOf := func(h string) (string, []int) {
 		// "pkg/path.Name[1 2]"
@@ -262,12 +263,7 @@ func cmdCheck(argv []string) int {
 			continue
 		}
 		// seed-dependent sample
-		want := 0
-		for _, hr := range runs {
-			if strings.HasSuffix(res.Spec.Entry, "."+hr.Entry) {
-				want = hr.Cosim
-			}
-		}
+		want := res.Spec.Cosim
 		if want > len(cs) {
 			want = len(cs)
 		}
@@ -563,7 +559,9 @@ func writeEvidence(spec PropSpec, tier string, seed int, st *Stats, results []*R
 		cov["trivially_true_assertions"] = st.TrivialAsserts
 		cov["solver_decided_assertions"] = st.NontrivialAsserts
 		cov["unknown_feasibility_kept"] = st.Unknown
-		cov["solvers"] = "z3 4.8.12 (decides), cvc5 1.0 cross-check of every property query" + map[bool]string{true: ", z3 5.1.0 second cross-check", false: ""}[tier == "thorough"]
+		cov["cross_check_unknown"] = st.XUnknown
+		cov["cross_check_policy"] = "every sat verdict, and the first 40 unsat verdicts of each of the 16 workers per harness run, are re-asked on cvc5 (thorough: also z3 5.1.0); a differing verdict makes the run inconclusive, an 'unknown' of the cross-check solver is counted"
+		cov["solvers"] = "z3 4.8.12 incremental (1.5 s per query), falling back to one-shot cvc5 --solve-bv-as-int=sum / z3 5.1.0 / cvc5 (floating point); cvc5 1.0 cross-check per cross_check_policy" + map[bool]string{true: ", z3 5.1.0 second cross-check", false: ""}[tier == "thorough"]
 		var kh []string
 		for k := range st.Known {
 			kh = append(kh, k)
